@@ -39,6 +39,8 @@ type c03Op struct {
 	Callback bool   `json:"callback,omitempty"`  // notify: the handler calls back into the peer with its own context before it goes on working
 	WriteMs  int    `json:"write_ms,omitempty"`  // roots: the transport takes this long to accept the notification
 	Fault503 bool   `json:"fault_503,omitempty"` // notify over HTTP: the POST is answered 503 once
+	Elicit   bool   `json:"elicit,omitempty"`    // s2c call: elicitation/create instead of roots/list
+	CancelMs int    `json:"cancel_ms,omitempty"` // call: > 0: the caller's context ends this long after the call was issued (possibly while it is still queued at the peer)
 }
 
 type c03Spec struct {
@@ -48,6 +50,7 @@ type c03Spec struct {
 	InitDur   int     `json:"init_dur_ms,omitempty"`
 	Batch     bool    `json:"batch,omitempty"`   // raw-init: 2025-03-26 and all operations travel as one JSON-RPC batch array
 	Version   string  `json:"version,omitempty"` // requested protocol version ("" = the client's default, 2026-07-28 on persistent connections)
+	OAuth     bool    `json:"oauth,omitempty"`   // streamable client transport configured with an OAuthHandler (the server requires nothing)
 }
 
 func genC03(r *vh.Rand) c03Spec {
@@ -62,6 +65,7 @@ func genC03(r *vh.Rand) c03Spec {
 		s.Version = ""
 		s.Transport = r.Choose("mem", "pipe")
 	}
+	s.OAuth = s.Mode == "c2s" && (s.Transport == "http" || s.Transport == "http-json") && r.Chance(1, 3)
 	// (the ops below depend on mode, transport and version)
 	for i, k := 0, r.Range(3, 12); i < k; i++ {
 		op := c03Op{N: i + 1, Kind: "notify", Dur: r.Intn(6), Gap: []int{0, 0, 0, 1, 2, 3}[r.Intn(6)]}
@@ -79,6 +83,10 @@ func genC03(r *vh.Rand) c03Spec {
 			op.Kind, op.WriteMs = "roots", []int{0, 1, 1500, 2500}[r.Intn(4)]
 		case op.Kind == "notify" && s.Mode == "c2s" && (s.Transport == "http" || s.Transport == "http-json") && r.Chance(1, 5):
 			op.Fault503 = true
+		case op.Kind == "call" && s.Mode == "s2c" && r.Chance(1, 3):
+			op.Elicit = true
+		case op.Kind == "call" && persistent && s.Mode != "raw-init" && r.Chance(1, 5):
+			op.CancelMs = r.Range(1, 4)
 		}
 		s.Ops = append(s.Ops, op)
 	}
@@ -206,7 +214,11 @@ func runC03(c *vh.Case, spec c03Spec) {
 	server.AddTool(&mcp.Tool{Name: "work", InputSchema: json.RawMessage(`{"type":"object"}`)}, func(ctx context.Context, req *mcp.CallToolRequest) (*mcp.CallToolResult, error) {
 		return &mcp.CallToolResult{Content: []mcp.Content{&mcp.TextContent{Text: "ok"}}}, nil
 	})
-	client := mcp.NewClient(&mcp.Implementation{Name: "c", Version: "1"}, nil)
+	client := mcp.NewClient(&mcp.Implementation{Name: "c", Version: "1"}, &mcp.ClientOptions{
+		ElicitationHandler: func(context.Context, *mcp.ElicitRequest) (*mcp.ElicitResult, error) {
+			return &mcp.ElicitResult{Action: "decline"}, nil
+		},
+	})
 	client.AddRoots(&mcp.Root{URI: "file:///r"})
 	extra := &c03Extra{callback: map[int]bool{}}
 	writeMs := map[int]int{}
@@ -229,6 +241,9 @@ func runC03(c *vh.Case, spec c03Spec) {
 		client.AddReceivingMiddleware(c03MW(log, dur, 0, extra))
 	}
 	po := vhm.PairOpts{Kind: spec.Transport, Server: server, Client: client, ClientVersion: spec.Version, AsyncDelete: true}
+	if spec.OAuth {
+		po.OAuth = &rotatingAuth{every: 1 << 30}
+	}
 	var rootsPending []int // roots ops whose notification is about to be written, in order
 	var rpmu sync.Mutex
 	if spec.Transport == "mem" || spec.Transport == "pipe" {
@@ -329,12 +344,23 @@ func runC03(c *vh.Case, spec c03Spec) {
 			defer calls.Done()
 			defer c.Guard("")
 			var err error
-			if spec.Mode == "c2s" {
-				_, err = cs.CallTool(ctx, &mcp.CallToolParams{Name: "work", Arguments: map[string]any{"nonce": op.N}})
-			} else {
-				_, err = ss.ListRoots(ctx, &mcp.ListRootsParams{Meta: mcp.Meta{"nonce": op.N}})
+			cctx := ctx
+			if op.CancelMs > 0 {
+				var cancel context.CancelFunc
+				cctx, cancel = context.WithTimeout(ctx, ms(op.CancelMs))
+				defer cancel()
 			}
-			if err != nil {
+			switch {
+			case spec.Mode == "c2s":
+				_, err = cs.CallTool(cctx, &mcp.CallToolParams{Name: "work", Arguments: map[string]any{"nonce": op.N}})
+			case op.Elicit:
+				_, err = ss.Elicit(cctx, &mcp.ElicitParams{Meta: mcp.Meta{"nonce": op.N}, Message: "m", RequestedSchema: map[string]any{"type": "object", "properties": map[string]any{}}})
+			default:
+				_, err = ss.ListRoots(cctx, &mcp.ListRootsParams{Meta: mcp.Meta{"nonce": op.N}})
+			}
+			if err != nil && op.CancelMs > 0 && cctx.Err() != nil {
+				log.Add("call-cancelled", "n", op.N)
+			} else if err != nil {
 				log.Add("call-failed", "n", op.N, "err", err.Error())
 			}
 			log.Add("call-return", "n", op.N)
@@ -500,6 +526,11 @@ func decideC03(c *vh.Case, spec c03Spec) {
 				c.Violate("refused-notification-dispatched", "notification %d: the sender was told it failed (HTTP 503), yet it was dispatched", op.N)
 				return
 			}
+			continue
+		}
+		if op.CancelMs > 0 {
+			// a call whose caller gives up: whether and when its handler runs is not fixed by the statement;
+			// calls never hold up later messages, so the reference dispatcher simply leaves it out
 			continue
 		}
 		kind := op.Kind
